@@ -4,7 +4,11 @@ package kv
 // that a version it keeps still needs; it removes the versions superseded
 // before the cutoff.
 
-import "time"
+import (
+	"time"
+
+	"github.com/jrhy/mast"
+)
 
 func vKVVersionReadable(bkt *vBucket, ver string, mode int) bool {
 	cfg := Config{
@@ -122,4 +126,38 @@ func vKVCfg() Config {
 		KeysLike:   "key",
 		ValuesLike: "value",
 	}
+}
+
+// H16-cache: two databases under different prefixes of one bucket share one
+// node cache (the cache is "S3-endpoint-scoped" by contract); the second one
+// commits content byte-identical to what the first one cached.  After its
+// commit is acknowledged, a fresh process reads it from the bucket alone.
+func VerifH_C16_shared_cache() {
+	bkt := vNewBucket()
+	cache := mast.NewNodeCache(8)
+	same := symChoice("same-content", 2) == 1
+	for i, pfx := range []string{"dba", "dbb"} {
+		cfg := vKVCfg()
+		cfg.Storage = &S3BucketInfo{EndpointURL: "e", BucketName: "b", Prefix: pfx}
+		cfg.NodeCache = cache
+		db, err := Open(vCtx, bkt.client(1+i), cfg, OpenOptions{}, time.Unix(0, int64(10+i)))
+		symAssert(err == nil, "open-ok")
+		val := "v"
+		if !same && i == 1 {
+			val = "w"
+		}
+		symAssert(db.Set(vCtx, time.Unix(0, 100), "k", val) == nil, "set-ok")
+		_, err = db.Commit(vCtx)
+		symAssert(err == nil, "commit-ok")
+		// a fresh process, no cache
+		cfg2 := vKVCfg()
+		cfg2.Storage = &S3BucketInfo{EndpointURL: "e", BucketName: "b", Prefix: pfx}
+		r, err := Open(vCtx, bkt.fork().client(5), cfg2, OpenOptions{ReadOnly: true}, time.Unix(0, 50))
+		symAssert(err == nil, "fresh-open-ok")
+		var got string
+		ok, err := r.Get(vCtx, "k", &got)
+		symAssert(err == nil, "fresh-get-ok")
+		symAssert(ok && got == val, "acknowledged-commit-readable-from-the-bucket-alone")
+	}
+	symReach("end")
 }
